@@ -104,8 +104,8 @@ class ExecBase:
             cons = []
             guards = []
             for i, at in enumerate(ty.alts):
-                av, c = self._fresh(at, f"{name}|{i}")
-                g = z3.Bool(f"{name}?{i}")
+                av, c = self._fresh(at, f"{name}.alt{i}")
+                g = z3.Bool(f"{name}.is{i}")
                 guards.append(g)
                 alts.append((g, av))
                 cons += [z3.Implies(g, x) for x in c]
